@@ -849,7 +849,25 @@ func pathAvoiding(fn *ssa.Function, from ssa.Instruction, target, avoid func(ssa
 				i = j + 1
 			}
 		}
-		q = append(q, st{b, nil, i, nil, 0, 0})
+		// what is known where the search starts: the branch conditions that dominate `from`
+		var known0, val0 uint64
+		for _, g := range guardsAtBlock(b) {
+			v, pol := stripNot(g.Cond, g.Pol)
+			if ix, ok := condIdx[v]; ok {
+				known0 |= 1 << ix
+				if pol {
+					val0 |= 1 << ix
+				}
+			} else if phi, isPhi := v.(*ssa.Phi); isPhi {
+				if ix, ok := phiIdx[phi]; ok {
+					known0 |= 1 << ix
+					if pol {
+						val0 |= 1 << ix
+					}
+				}
+			}
+		}
+		q = append(q, st{b, nil, i, nil, known0, val0})
 		// note: from.Block() can be revisited from its start through a loop
 	}
 	for len(q) > 0 {
